@@ -14,6 +14,14 @@ CHECKS = {
     note="Bound: <=2 operators at w=3 (quick), <=2 at w in 1,2,3,4,8 and <=3 over the re-association sub-alphabet (thorough); 1 operator at widths 1..128; complexity threshold off and small. "
          "Sign-sensitive operators take operands whose every leaf and node was declared signed/unsigned. Trusted: amc/ref/bv.py, amc/gen/exprs.py.",
     design="DESIGN.md section 3, C01"),
+ "C09": dict(
+    category="model_checking",
+    technique="bounded exhaustive enumeration of load/store programs over two symbolic pointers x all concrete pointer assignments (equal, overlapping by -4..4 bytes, disjoint) on the real mapper against a bytearray execution",
+    text="Every program up to the length bound over the store/load alphabet (2 pointers, offsets 0..2, sizes 8..32/64, both endiannesses) is executed symbolically once; for every pointer assignment "
+         "the composed concrete result (loaded registers, with mem-with-mods results interpreted by replaying their ordered mods, and every byte of the memory window) must equal the byte-level execution; "
+         "with the no-aliasing assumption only for assignments where different pointers do not overlap.",
+    note="Bound: length <=2 full alphabet, length 3 reduced (quick) / larger + length 4 reduced (thorough). Known findings: endianness lost in the write trace; aliasing window after a narrower store.",
+    design="DESIGN.md section 3, C09"),
  "C11": dict(
     category="model_checking",
     technique="explicit-state exploration of all decode-call sequences (depth 3/4) over a per-ISA menu on the one real disassembler object; state = pending prefix instruction; reference = same call made first in a fresh process",
